@@ -83,6 +83,8 @@ def checkCoords (utmp northp : Bool) (x y : F64) : Except Err Coords := do
   let mut x := x
   let mut y := y
   let mut northp := northp
+  -- `y / tile_` underflows to −0 for a tiny negative `y`, which then passes as row 0: the code sets `y = 0` (fix 5b59a93)
+  if F64.lt y 0 && iy == 0 then y := 0
   if !(ix ≥ mnE ∧ ix < mxE) then
     if ix = mxE ∧ F64.eq x (F64.ofInt (mxE * tile)) then x := x - eps
     else throw "easting out of range"
